@@ -1,0 +1,41 @@
+//go:build verif
+
+package olareg
+
+import (
+	"time"
+
+	"github.com/opencontainers/go-digest"
+
+	"github.com/olareg/olareg/internal/store"
+)
+
+// VerifGC runs one repository collection synchronously.
+func (s *Server) VerifGC(repo string) error {
+	return store.VerifGC(s.store, repo)
+}
+
+// VerifGCPass runs one store-wide pass with explicit tick times.
+func (s *Server) VerifGCPass(cur, prev time.Time) error {
+	return store.VerifGCPass(s.store, cur, prev)
+}
+
+// VerifSetBlobTime sets the age of a blob (Chtimes for dir, metadata for mem).
+func (s *Server) VerifSetBlobTime(repo string, d digest.Digest, t time.Time) error {
+	return store.VerifSetBlobTime(s.store, repo, d, t)
+}
+
+// VerifUploadPrune runs the age or count based prune of a repository's upload sessions synchronously.
+func (s *Server) VerifUploadPrune(repo string, byAge bool) error {
+	return store.VerifUploadPrune(s.store, repo, byAge)
+}
+
+// VerifUploadSetUsed overrides the last-used time of an upload session.
+func (s *Server) VerifUploadSetUsed(repo, sessionID string, t time.Time) bool {
+	return store.VerifUploadSetUsed(s.store, repo, sessionID, t)
+}
+
+// VerifUploadCount returns the number of open upload sessions of a repository.
+func (s *Server) VerifUploadCount(repo string) int {
+	return store.VerifUploadCount(s.store, repo)
+}
